@@ -8,7 +8,7 @@
     Assumptions of the model (the property is labelled partial): the test-and-insert on the lock
     table is atomic (O_CREAT|O_EXCL) and a concurrent execution is an interleaving of atomic steps. *)
 From Coq Require Import List Bool Arith.
-From Rocfl Require Import Model.Lock Proofs.LockFacts Proofs.LockSerialFacts.
+From Rocfl Require Import Model.Lock Proofs.LockFacts Proofs.LockSerialFacts Proofs.LockScheduleFacts.
 Import ListNotations.
 
 (** mutual exclusion: in every reachable state at most one operation is inside its body for an object *)
@@ -207,6 +207,44 @@ Theorem C13_serializable_outcomes :
 Proof. exact (fun oid key data oid_eqb key_eqb hash os d0 sched pre post i x out KO K =>
                 serializable_outcomes oid key data oid_eqb key_eqb hash KO K os d0 sched pre post i x out). Qed.
 Print Assumptions C13_serializable_outcomes.
+
+(** the serial execution is itself a run of the model: for every duplicate-free list of operations there
+    is a schedule of one block of steps per operation, in that order, in which nobody is refused and
+    which leaves exactly [serial_data] ... *)
+Theorem C13_serial_schedule_exists :
+  forall (oid key data : Type) (oid_eqb : oid -> oid -> bool) (key_eqb : key -> key -> bool) (hash : oid -> key)
+         (os : list (op oid data)) (d0 : oid -> data) (log : list nat),
+    eqb_correct oid_eqb -> eqb_correct key_eqb ->
+    NoDup log -> (forall i, In i log -> exists x, nth_error os i = Some x) ->
+    exists bl, map fst bl = log /\
+      let st := run_sched oid key data oid_eqb key_eqb hash (init oid key data os d0) (blocks_sched bl) in
+      acq_log st = log /\ locks st = [] /\ ops st = os /\
+      (forall o, store st o = serial_data oid data oid_eqb os d0 log o) /\
+      (forall i, In i log -> exists out, nth_error (pcs st) i = Some (Finished (RRet out))) /\
+      (forall i, ~ In i log -> nth_error (pcs st) i = nth_error (pcs (init oid key data os d0)) i).
+Proof. exact (fun oid key data oid_eqb key_eqb hash os d0 log KO K =>
+                serial_schedule_exists oid key data oid_eqb key_eqb hash KO K os d0 log). Qed.
+Print Assumptions C13_serial_schedule_exists.
+
+(** ... hence: every complete interleaving ends with the lock table empty and with the data AND the
+    reported outcomes of a serial schedule (no interleaving at all) of the operations that were not
+    refused, in the order in which they acquired their locks *)
+Theorem C13_equivalent_serial_schedule :
+  forall (oid key data : Type) (oid_eqb : oid -> oid -> bool) (key_eqb : key -> key -> bool) (hash : oid -> key)
+         (os : list (op oid data)) (d0 : oid -> data) (sched : list nat),
+    eqb_correct oid_eqb -> eqb_correct key_eqb ->
+    all_finished oid key data (run_sched oid key data oid_eqb key_eqb hash (init oid key data os d0) sched) = true ->
+    exists bl,
+      map fst bl = acq_log (run_sched oid key data oid_eqb key_eqb hash (init oid key data os d0) sched) /\
+      let st := run_sched oid key data oid_eqb key_eqb hash (init oid key data os d0) sched in
+      let ss := run_sched oid key data oid_eqb key_eqb hash (init oid key data os d0) (blocks_sched bl) in
+      acq_log ss = acq_log st /\ locks ss = [] /\ locks st = [] /\
+      (forall o, store st o = store ss o) /\
+      (forall i, In i (acq_log st) -> exists out, nth_error (pcs ss) i = Some (Finished (RRet out))
+                                                 /\ nth_error (pcs st) i = Some (Finished (RRet out))).
+Proof. exact (fun oid key data oid_eqb key_eqb hash os d0 sched KO K =>
+                equivalent_serial_schedule oid key data oid_eqb key_eqb hash KO K os d0 sched). Qed.
+Print Assumptions C13_equivalent_serial_schedule.
 
 (** Non-vacuity: a concrete system (ids and keys are numbers, hash o = o + 100, the data of an object is
     the list of values written) with two operations on object 1 and one on object 2. *)
